@@ -114,7 +114,109 @@ def _run_batch(args):
     return out
 
 
+def walk_fault_scenarios():
+    """Trees with sub-directories whose listing can fail: every regular file carries one existing ID and one statement that needs one, so that
+    whichever order the directory is listed in, a file listed after a failing entry holds IDs the run must still respect."""
+    import fsx
+    out = []
+    for structured in (False, True):
+        for name, dirs in (("W1", ("m",)), ("W2", ("d1", "d2/n")), ("W3", ("a", "z", "k/l/m"))):
+            # the listing order of a directory is the file system's (on tmpfs: newest entry first), so the creation order is part of the
+            # scenario: directories created last / first / between the files
+            for order, asc in itertools.product(("dirs-last", "dirs-first", "interleaved"), (True, False)):
+                names = ["f%d.rs" % i for i in range(1, 7)]
+                dn = [d + "/in.rs" for d in dirs]
+                if order == "dirs-last":
+                    seq = names + dn
+                elif order == "dirs-first":
+                    seq = dn + names
+                else:
+                    seq = []
+                    for i, f in enumerate(names):
+                        seq.append(f)
+                        if i % 2 == 1 and dn:
+                            seq.append(dn.pop(0))
+                    seq += dn
+                files = {}
+                n = 0
+                for pos, f in enumerate(seq):
+                    n += 10
+                    files["%02d_%s" % (pos, f)] = "fn f() { " + stmt(n if asc else 10 * len(seq) + 10 - n, structured, 0) + "\n" + stmt(None, structured, 1) + " }\n"
+                tag = "%s-%s-%s-%s" % (name, "kv" if structured else "msg", order, "asc" if asc else "desc")
+                out.append(fsx.Scenario(tag, files, structured=structured, use_cache=False))
+                out.append(fsx.Scenario(tag + "-lock", files, structured=structured, lock=n + 1))
+    return out
+
+
+def run_walk_faults(tier, v):
+    """E1: a directory below source_dir that cannot be opened / an entry that cannot be read is one entry skipped; the IDs in every file the
+    walk can still reach stay reserved."""
+    import re
+    import fsx
+    ex = fsx.Explorer()
+    outcomes = set()
+
+    def oracle(sc, base, x):
+        v.count()
+        orig = sc.source_bytes()
+        # a directory that cannot be opened is skipped; a listing that fails ends that directory's listing (std's ReadDir ends the stream on
+        # an error), so files below such a directory are not part of the scanned tree - everything else still is
+        failed_dirs = [o.path[len("$R0/src/"):] for o in x.trace if o.op in ("opendir", "readdir") and o.errno != 0 and o.path.startswith("$R0/src/")]
+        root_failed = any(o.op in ("opendir", "readdir") and o.errno != 0 and o.path == "$R0/src" for o in x.trace)
+        if root_failed:
+            failed_dirs.append("")
+        reachable = {f: b for f, b in orig.items() if not any(d == "" or f.startswith(d + "/") for d in failed_dirs)}
+        existing = set()
+        for f, b in reachable.items():
+            existing |= {int(m) for m in re.findall(rb"\[ref: (\d+)\]|ref = (\d+)", b) for m in m if m}
+        new_ids = []
+        bad = []
+        for f, b in orig.items():
+            got = x.src.get(f)
+            if got is None:
+                bad.append("file-missing")
+                continue
+            st = cli.token_strip(b, got)
+            if st is None:
+                bad.append("not-token-only")
+            else:
+                new_ids += [cli.token_id(t) for _, t in st]
+        v.distinct((sc.name, fsx.plan_str(x.plan)))
+        outcomes.add((x.exit, len(new_ids), len(failed_dirs)))
+        if x.timed_out or x.signal is not None:
+            bad.append("abnormal-termination")
+        if len(set(new_ids)) != len(new_ids):
+            bad.append("duplicate-among-new-ids")
+        if set(new_ids) & existing:
+            bad.append("new-id-collides-with-existing-in-reachable-file")
+        if sc.lock is None and existing and any(i <= max(existing) for i in new_ids):
+            bad.append("new-id-not-above-maximum-without-lock")
+        if not root_failed and x is base and len(new_ids) != len(orig):
+            bad.append("fault-free-run-did-not-reference-every-statement")
+        for b_ in bad:
+            v.violation("%s:walk-fault:%s" % (b_, "+".join(sorted({o.op for o in x.trace if o.errno != 0 and o.op in ("opendir", "readdir")})) or "none"),
+                        {"scenario": sc.name, "plan": fsx.plan_str(x.plan), "exit": x.exit, "new_ids": sorted(new_ids), "existing_reachable": sorted(existing),
+                         "failed_dirs": failed_dirs, "listing_order": [o.path for o in base.trace if o.op == "open" and o.path.startswith("$R0/src")][:12]},
+                        replay_files={"proj/src/" + f: b for f, b in orig.items()},
+                        replay_cmd="apply the fault plan with the fsx shim (FSX_PLAN=%s) on an edit run of this tree" % fsx.plan_str(x.plan))
+
+    nexec = 0
+    scs = walk_fault_scenarios()
+    if tier != "thorough":
+        scs = [s for s in scs if s.name.startswith(("W1", "W3")) and ("-lock" not in s.name or "interleaved" in s.name)]
+    for sc in scs:
+        _, n, capped = ex.explore(sc, {"fail"}, 2 if tier == "thorough" else 1, oracle,
+                                  op_filter=lambda o, depth, x: o.op in ("opendir", "readdir"))
+        nexec += n + 1
+    ex.close()
+    v.subspace("walk faults: %d trees with 1-3 sub-directories x style x lock {absent+disabled, present}; every opendir/readdir of the walk fails "
+               "(EACCES / EIO), %s" % (len(scs), "all pairs of such faults" if tier == "thorough" else "one fault per run"), nexec, exhaustive=True)
+    v.coverage["walk_fault_distinct_outcomes(exit, ids inserted, dirs unreadable)"] = len(outcomes)
+    v.coverage["walk_fault_engine"] = dict(ex.stats)
+
+
 def run(tier, v):
+    run_walk_faults(tier, v)
     mf, ms = (3, 2) if tier == "thorough" else (2, 2)
     work = scratch_dir("c01")
     alljobs = list(jobs_for(mf, ms))
